@@ -12,6 +12,7 @@ verus! {
 //@include prelude/static_fs.rs
 //@include prelude/static_procfs.rs
 //@include prelude/resolver_static.rs
+//@include prelude/symlink_stack_stub_static.rs
 //@broadcast-here
 pub type RawMode = u32;
 pub mod syscalls {
